@@ -37,7 +37,7 @@ META = {
     'assumptions': ['handlers run to completion (Twisted reactor)'],
     'decided': ['D1 sender order', 'D2 declared count and index; the '
                 'descriptor list is handed on to every nested codec call',
-                'D3 receiver FIFO; every message type consumes its declared descriptors', 'D4 fresh list per message'],
+                'D3 receiver FIFO; every message type consumes its declared descriptors; the queue is rebound only where it is created and by the consumer', 'D4 fresh list per message'],
     'undecided': ['attribution under concrete arrival interleavings'],
 }
 
